@@ -42,6 +42,13 @@ Section Lines.
 
   (* weights of the half-sided transform: the end points count once, the others twice *)
   Definition trapw (nt m : nat) : R := if (Nat.eqb m 0 || Nat.eqb m (nt - 1))%bool then 1 else 1 + 1.
+
+  (* _excitonic_coft(SS, AG, n) at one time point: energy-gap correlation function of exciton state n+1 (n = 0 .. na-1; state 0
+     is the ground state, site kk is state kk+1), C kk ll = cfm.get_coft(kk, ll) at that time.  The weights are the squares of
+     COLUMN n+1 of the eigenvector matrix: how exciton n+1 spreads over the sites *)
+  Definition exc_weight (S : nat -> nat -> R) (n kk : nat) : R := S (kk + 1)%nat (n + 1)%nat * S (kk + 1)%nat (n + 1)%nat.
+  Definition exc_coft (na : nat) (S C : nat -> nat -> R) (n : nat) : R :=
+    sum na (fun kk => sum na (fun ll => exc_weight S n kk * exc_weight S n ll * C kk ll)).
 End Lines.
 
 (* ---------------------------------------------------------------------------------- *)
@@ -122,3 +129,12 @@ Definition aligned (v : variant) (tp : Q) (nt : nat) (dt rwa : Q) (p : nat) : bo
   | Some y => Qeq_bool (this y) (this (data_frequency QF (Q2Qc tp) nt (Q2Qc dt) (Q2Qc rwa) p))
   | None => false
   end.
+
+(* exciton correlation function: (sites, integer matrix handed in as SS (rows), cfm.get_coft(kk,ll) at one time point as Gaussian
+   rationals, exciton index n, value returned at that time point, tolerance) *)
+Definition case_coft := (nat * list (list Z) * list (list (Q * Q)) * nat * (Q * Q) * Q)%type.
+Definition zfn2 (m : list (list Z)) : nat -> nat -> GQ := fun i j => q2gq (inject_Z (nth j (nth i m []) 0%Z)) 0.
+Definition gfn2 (m : list (list (Q * Q))) : nat -> nat -> GQ := fun i j => let p := nth j (nth i m []) (0%Q, 0%Q) in q2gq (fst p) (snd p).
+Definition coft_agrees (c : case_coft) : bool :=
+  let '(na, Sm, Cm, n, out, tol) := c in
+  gq_close tol (exc_coft (R:=GQ) na (zfn2 Sm) (gfn2 Cm) n) (q2gq (fst out) (snd out)).
